@@ -127,17 +127,22 @@ int32_t jls_wr_ts_open(
 }
 
 static int32_t commit(struct jls_core_ts_s * self, int level, int mode) {
-    if ((level < 1) || (level > JLS_SUMMARY_LEVEL_COUNT)) {
+    if ((level < 1) || (level >= JLS_SUMMARY_LEVEL_COUNT)) {
         JLS_LOGE("invalid level");
         return JLS_ERROR_PARAMETER_INVALID;
     }
     struct jls_index_s * index = self->index[level];
     struct jls_payload_header_s * summary_header = self->summary[level];
+    const int has_up = (level + 1) < JLS_SUMMARY_LEVEL_COUNT;  // the top level only chains its chunks
 
     if (!index || !summary_header || !index->header.entry_count) {
         return 0;
-    } else if (mode == COMMIT_MODE_NORMAL) {
+    } else if (has_up && (mode == COMMIT_MODE_NORMAL)) {
         ROE(alloc(self, level + 1));
+    }
+    if (has_up && self->index[level + 1]
+            && (self->index[level + 1]->header.entry_count >= self->decimate_factor)) {
+        ROE(commit(self, level + 1, mode));  // still full: an earlier commit failed
     }
 
     // update headers
@@ -153,8 +158,8 @@ static int32_t commit(struct jls_core_ts_s * self, int level, int mode) {
                           self->track_type, level, p_start, len));
 
     // add to upper level and compute summary write
-    struct jls_index_s * index_up = self->index[level + 1];
-    struct jls_payload_header_s * summary_header_up = self->summary[level + 1];
+    struct jls_index_s * index_up = has_up ? self->index[level + 1] : NULL;
+    struct jls_payload_header_s * summary_header_up = has_up ? self->summary[level + 1] : NULL;
     if (index_up) {
         struct jls_index_entry_s * index_up_entry = &index_up->entries[index_up->header.entry_count++];
         index_up_entry->timestamp = index->entries[0].timestamp;
@@ -164,7 +169,7 @@ static int32_t commit(struct jls_core_ts_s * self, int level, int mode) {
         struct jls_annotation_summary_s * summary = (struct jls_annotation_summary_s *) summary_header;
         p_end = (uint8_t *) &summary->entries[summary->header.entry_count];
         p_start = (uint8_t *) summary;
-        if (mode != COMMIT_MODE_CLOSE) {
+        if (summary_header_up && (mode != COMMIT_MODE_CLOSE)) {
             struct jls_annotation_summary_s *summary_up = (struct jls_annotation_summary_s *) summary_header_up;
             summary_up->entries[summary_up->header.entry_count++] = summary->entries[0];
         }
@@ -172,7 +177,7 @@ static int32_t commit(struct jls_core_ts_s * self, int level, int mode) {
         struct jls_utc_summary_s * summary = (struct jls_utc_summary_s *) summary_header;
         p_end = (uint8_t *) &summary->entries[summary->header.entry_count];
         p_start = (uint8_t *) summary;
-        if (mode != COMMIT_MODE_CLOSE) {
+        if (summary_header_up && (mode != COMMIT_MODE_CLOSE)) {
             struct jls_utc_summary_s *summary_up = (struct jls_utc_summary_s *) summary_header_up;
             summary_up->entries[summary_up->header.entry_count++] = summary->entries[0];
         }
@@ -183,14 +188,14 @@ static int32_t commit(struct jls_core_ts_s * self, int level, int mode) {
     ROE(jls_core_wr_summary(self->parent->parent, self->parent->signal_def.signal_id,
                             self->track_type, level, p_start, len));
 
+    // Reset our entry count since all have been written.
+    index->header.entry_count = 0;
+    summary_header->entry_count = 0;
+
     // When up is full, commit it
     if (index_up && (index_up->header.entry_count >= self->decimate_factor)) {
         ROE(commit(self, level + 1, mode));
     }
-
-    // Reset our entry count since all have been written.
-    index->header.entry_count = 0;
-    summary_header->entry_count = 0;
     return 0;
 }
 
@@ -213,6 +218,9 @@ int32_t jls_wr_ts_anno(struct jls_core_ts_s * self, int64_t timestamp, int64_t o
     ROE(alloc(self, 1));
     struct jls_index_s * index = self->index[1];
     struct jls_annotation_summary_s * summary = (struct jls_annotation_summary_s *) self->summary[1];
+    if (index->header.entry_count >= self->decimate_factor) {
+        ROE(commit(self, 1, COMMIT_MODE_NORMAL));  // still full: an earlier commit failed
+    }
 
     struct jls_index_entry_s * index_entry = &index->entries[index->header.entry_count++];
     index_entry->timestamp = timestamp;
@@ -241,6 +249,9 @@ int32_t jls_wr_ts_utc(struct jls_core_ts_s * self, int64_t sample_id, int64_t of
     ROE(alloc(self, 1));
     struct jls_index_s * index = self->index[1];
     struct jls_utc_summary_s * summary = (struct jls_utc_summary_s *) self->summary[1];
+    if (index->header.entry_count >= self->decimate_factor) {
+        ROE(commit(self, 1, COMMIT_MODE_NORMAL));  // still full: an earlier commit failed
+    }
 
     struct jls_index_entry_s * index_entry = &index->entries[index->header.entry_count++];
     index_entry->timestamp = sample_id;
